@@ -265,3 +265,17 @@ PLAN["C11"] = {
     "runs": runs([dict(MON16, budget=120), {"flavour": "miri", "shards": 8, "budget": 200, "timeout": 900}],
                  [dict(MON16, budget=600), {"flavour": "asan", "shards": 16, "scale": 0.2, "budget": 600}, {"flavour": "miri", "shards": 16, "budget": 600, "timeout": 2400}]),
 }
+
+PLAN["C17"] = {
+    "rule": "the real analysis (ChordalInfo::new through the verif wrapper) on a PSD cone whose aggregate [A b] pattern is a given graph (entries marked through A, through b with either sign, or "
+            "both; diagonal partly absent): ALL graphs on 2..5 vertices (quick) / 2..6 (thorough; 7 with VERIF_C17_FULL=1) x merge in {none, parent_child, clique_graph}, random banded / arrow / "
+            "block-diagonal / disconnected / random-chordal (random perfect elimination order) / non-chordal graphs up to 120 (quick) / 400 (thorough) vertices; oracle from graph definitions: "
+            "ordering is a permutation, supernodes partition the vertices into consecutive ranges, cliques mapped through the ordering cover every nonzero and the diagonal, one rooted tree with "
+            "post a post-order, separator = clique ∩ parent clique, running intersection, nblk = clique sizes, dense patterns undecomposed, no panic, no stall; plus the union-find used by the "
+            "clique-graph merge against a naive label model on random union/query histories",
+    "assumptions": BASE_ASSUME + PSD_ASSUME + ["'terminates' is judged by the driver: a shard that stalls or exhausts its 12 GB address-space cap has its current case re-run alone; only a second failure is a violation",
+                                             "for merge 'none' the clause 'undecomposed only if the fill is complete' is not judged (the ordering is not exposed when undecomposed); such outcomes are counted"],
+    "min_nontrivial": 200,
+    "runs": runs([dict(MON16, budget=150, timeout=300), {"flavour": "miri", "shards": 8, "budget": 200, "timeout": 600}],
+                 [dict(MON16, budget=900, timeout=2400), {"flavour": "asan", "shards": 16, "scale": 0.2, "budget": 600}, {"flavour": "miri", "shards": 16, "budget": 600, "timeout": 2400}]),
+}
